@@ -76,7 +76,9 @@ FLOW_TAIL = {'try': ['finally:', '    pass']}
 FLOW_STMT = {'return': 'return', 'returnval': 'return 1', 'raise': 'raise E', 'yield': 'yield 1', 'yieldfrom': 'yield from g',
              'await': 'await g', 'def': 'def inner(a): return a', 'asyncdef': 'async def inner(): pass',
              'class': 'class Inner: pass', 'import': 'import os', 'from': 'from a import b', 'lambda': 'k = lambda: (yield)',
-             'docstring': '"text"', 'decorated': '@dec\ndef inner2(): pass'}
+             'docstring': '"text"', 'decorated': '@dec\ndef inner2(): pass',
+             # the words the helpers look for, as TEXT (f-string parts, string contents, attribute and keyword names)
+             'wordsintext': 'k = f"yield" + f"{k}return" + "raise"; k.yield_ = g(await_=1)'}
 
 
 def render_flow(f, c1, c2, st):
